@@ -604,6 +604,8 @@ class Fn:
 class Program:
     def __init__(self, facts_dir):
         self.dir = facts_dir
+        rp = os.path.join(facts_dir, 'ROOT')
+        self.root = open(rp).read().strip() if os.path.exists(rp) else os.environ.get('RIP_REPO', '/repo')
         self.fns = {}
         self.adts = {}
         self.impls = []
